@@ -10,10 +10,12 @@
   shape `bc-components` gives every encrypted / compressed element — 12-byte nonce, 16-byte
   tag, non-empty aad; u32 checksum, u64 size, data no longer than size).  `EncShape` is
   established by `encShape_encryptWithDigest` / `encShape_compressedOf` and by the decoder
-  (`decode_inv` in C06).  At the byte level the two laws of the dCBOR codec enter as the
-  explicit hypothesis `CodecLaws` (Lemmas/CodecLaws.lean; not an axiom, not proved here for
-  the Lean codec), together with `Encodable e` (leaves are valid dCBOR, counts fit in 64
-  bits), which makes the tree `Cbor.Valid`.
+  (`envOfCbor_inv` in C06).  At the byte level the only codec fact needed is the first dCBOR
+  law, `DecEncLaw` (a valid tree decodes from its encoding); it is *proved* for the model
+  codec (`Cbor.decEncLaw` in Lemmas/CodecLaws.lean), so no theorem here carries a codec
+  hypothesis.  (The other half of `CodecLaws` is false for `dcbor` 0.17.1 and is not used
+  here; see C06.)  `Encodable e` (leaves are valid dCBOR, counts fit in 64 bits) makes the
+  tree `Cbor.Valid`.
 
   The decoded value is *equal* to the original as a term of `Env`; since `Env` carries the
   case, the cached digest and all children at every position, equality is "same case and
@@ -62,18 +64,18 @@ theorem cborOf_injective (e₁ e₂ : Env) (h₁ : Inv h e₁) (s₁ : EncShape 
   injection r₁ with r₁
   exact r₁.symm
 
-/-! ### byte level (with the codec laws) -/
+/-! ### byte level -/
 
 /-- the round trip, given that the tree is valid dCBOR -/
-theorem decode_encode_of_valid (L : CodecLaws) (e : Env) (hi : Inv h e) (hs : EncShape e)
+theorem decode_encode_of_valid (e : Env) (hi : Inv h e) (hs : EncShape e)
     (hv : (taggedCborOf e).Valid) : decode h (encode e) = .ok e := by
-  simp only [decode, encode, L.dec_enc _ hv]
+  simp only [decode, encode, Cbor.decEncLaw _ hv]
   exact envOfTaggedCbor_taggedCborOf h e hi hs
 
 /-- C05: `from_tagged_cbor_data (to_cbor_data e) = e` -/
-theorem decode_encode (L : CodecLaws) (e : Env) (hi : Inv h e) (hs : EncShape e)
+theorem decode_encode (e : Env) (hi : Inv h e) (hs : EncShape e)
     (he : Encodable e) : decode h (encode e) = .ok e :=
-  decode_encode_of_valid h L e hi hs (taggedCborOf_valid he hs)
+  decode_encode_of_valid h e hi hs (taggedCborOf_valid he hs)
 
 /- the hypotheses on `e` are satisfiable by a non-trivial envelope (node, wrapped subject,
 assertion with known-value predicate and text leaf object, elided, encrypted and compressed
@@ -81,36 +83,39 @@ elements) -/
 example : Inv CodecEx.toyH CodecEx.sample ∧ EncShape CodecEx.sample ∧ Encodable CodecEx.sample :=
   ⟨CodecEx.sample_inv, CodecEx.sample_encShape, CodecEx.sample_encodable⟩
 
+example : decode CodecEx.toyH (encode CodecEx.sample) = .ok CodecEx.sample :=
+  decode_encode _ _ CodecEx.sample_inv CodecEx.sample_encShape CodecEx.sample_encodable
+
 /-- identical: same element (case, digest, children) at every position of the structure
 walk, same top digest -/
-theorem decode_encode_identical (L : CodecLaws) (e e' : Env) (hi : Inv h e) (hs : EncShape e)
+theorem decode_encode_identical (e e' : Env) (hi : Inv h e) (hs : EncShape e)
     (he : Encodable e) (hd : decode h (encode e) = .ok e') :
     e' = e ∧ elements e' = elements e ∧ e'.digest = e.digest := by
-  rw [decode_encode h L e hi hs he] at hd
+  rw [decode_encode h e hi hs he] at hd
   injection hd with hd
   subst hd
   exact ⟨rfl, rfl, rfl⟩
 
 /-- the decoded value re-encodes to the very same bytes, and the second generation decodes
 to the same envelope again -/
-theorem decode_encode_second_generation (L : CodecLaws) (e e' : Env) (hi : Inv h e)
+theorem decode_encode_second_generation (e e' : Env) (hi : Inv h e)
     (hs : EncShape e) (he : Encodable e) (hd : decode h (encode e) = .ok e') :
     encode e' = encode e ∧ decode h (encode e') = .ok e' := by
-  obtain ⟨rfl, _, _⟩ := decode_encode_identical h L e e' hi hs he hd
+  obtain ⟨rfl, _, _⟩ := decode_encode_identical h e e' hi hs he hd
   exact ⟨rfl, hd⟩
 
 /-- every valid dCBOR value round-trips as a leaf through the bytes -/
-theorem decode_encode_leaf (L : CodecLaws) (c : Cbor) (hc : c.Valid) :
+theorem decode_encode_leaf (c : Cbor) (hc : c.Valid) :
     decode h (encode (newLeaf h c)) = .ok (newLeaf h c) :=
-  decode_encode h L _ ⟨by simp only [newLeaf, WF], by simp only [newLeaf, Canon]⟩
+  decode_encode h _ ⟨by simp only [newLeaf, WF], by simp only [newLeaf, Canon]⟩
     (by simp only [newLeaf, EncShape]) (by simpa only [newLeaf, Encodable] using hc)
 
 /-- the byte encoder is injective on the envelopes the library produces -/
-theorem encode_injective (L : CodecLaws) (e₁ e₂ : Env) (h₁ : Inv h e₁) (s₁ : EncShape e₁)
+theorem encode_injective (e₁ e₂ : Env) (h₁ : Inv h e₁) (s₁ : EncShape e₁)
     (v₁ : Encodable e₁) (h₂ : Inv h e₂) (s₂ : EncShape e₂) (v₂ : Encodable e₂)
     (heq : encode e₁ = encode e₂) : e₁ = e₂ := by
-  have r₁ := decode_encode h L e₁ h₁ s₁ v₁
-  have r₂ := decode_encode h L e₂ h₂ s₂ v₂
+  have r₁ := decode_encode h e₁ h₁ s₁ v₁
+  have r₂ := decode_encode h e₂ h₂ s₂ v₂
   rw [heq, r₂] at r₁
   injection r₁ with r₁
   exact r₁.symm
